@@ -116,6 +116,14 @@ func TestC01(t *testing.T) {
 			switch {
 			case out.Panic != nil && !strings.Contains(fmt.Sprint(out.Panic), "PanicError"):
 				r.Violation("compile.panic", "panic on an R3 case", id, w)
+			case c.DiffWithProtoc:
+				// a documented divergence: the table records the project's verdict, protoc's is the opposite.
+				// The property allows the documented verdict and of course protoc's own, so nothing is decided.
+				if out.OK() == wantAccept {
+					r.Class("r3:documented-divergence kept")
+				} else {
+					r.Class("r3:documented-divergence not present (verdict equals protoc's)")
+				}
 			case out.OK() && !wantAccept:
 				r.Violation("c01.accepts-protoc-rejected", "R3 "+table+": "+classifyErr(c.ExpectedErr), id, w)
 			case !out.OK() && wantAccept:
@@ -143,9 +151,6 @@ func TestC01(t *testing.T) {
 				r.Class("r3:reject-confirmed")
 			default:
 				r.Class("r3:accept-confirmed")
-			}
-			if c.DiffWithProtoc {
-				r.Class("r3:documented-divergence")
 			}
 			if i == 0 {
 				r.Sample("r3-case", map[string]any{"name": c.Name, "input": c.Input, "expected_err": c.ExpectedErr})
